@@ -538,6 +538,14 @@ fn ffalse(
     Ok(model::Value::Boolean(false))
 }
 
+/// Whether an attribute is `xml:lang`: local name `lang` in the XML namespace.
+fn is_xml_lang(attr: &dom::XmlAttr) -> bool {
+    matches!(
+        attr.as_expanded_name(),
+        Ok(Some((local, _, Some(uri)))) if local == "lang" && uri == "http://www.w3.org/XML/1998/namespace"
+    )
+}
+
 fn lang(
     args: Vec<model::Value>,
     node: dom::XmlNode,
@@ -549,8 +557,8 @@ fn lang(
     let mut n = Some(node);
     while let Some(current) = n {
         if let dom::XmlNode::Element(element) = &current {
-            // FIXME: namespace
-            if let Some(attr) = element.get_attribute_node("lang") {
+            // xml:lang, not any attribute with the local name lang
+            if let Some(attr) = element.attributes().and_then(|v| v.iter().find(is_xml_lang)) {
                 // the same language, ignoring case, or a sublanguage of it (en-US is a sublanguage of en)
                 let value = attr.value()?.to_lowercase();
                 let same = match value.strip_prefix(name.as_str()) {
